@@ -251,6 +251,16 @@ CHECKS["C18"] = dict(
     shards_quick=16, budget_quick=45, shards_thorough=16, budget_thorough=480, release_pass=False, miri=False,
     assumptions=EXPLORER_ASSUME, crash_is_violation=True)
 
+CHECKS["C19"] = dict(
+    level="exploration",
+    technique="differential monitor over HTTP for every content-serving route (/content, /r/undelegated-content, /r/sat/<n>/at/<i>/content, /preview) of an in-process explorer: status, body, Content-Type, Content-Encoding and Cache-Control compared with a reference built from the known envelope fields; Content-Security-Policy headers evaluated by a CSP source matcher over a battery of same-origin / configured-origin / foreign URLs; substring monitor for the random markers of hidden inscriptions in every response; presence of the CSP header on every response incl. errors, redirects, JSON, static files and CORS preflights",
+    level_text="Exploration over inscriptions x routes x Accept-Encoding x configurations: ~10^2 states per quick run covering all 8 combinations of {--csp-origin, --decompress, hidden list}; content types (legal, non-ASCII, illegal header values, non-UTF-8, absent), encodings (br valid / br invalid / gzip / odd / trailing space / non-UTF-8), bodies with 16-byte markers, delegates to existing, missing, delegating and hidden inscriptions, several inscriptions on one sat (negative indices). Accept-Encoding in {absent, br, gzip, 'gzip, br', 'br;q=0.5', identity}; '*' and 'q=0' forms and stored encodings that are not legal header values are sent but only checked for CSP / leakage.",
+    rule="expected: hidden (requested id or, one level deep, its delegate) => nothing of the body in the response; missing inscription / delegate / body => 404 (406 tolerated); else Content-Type = stored bytes if a legal header value, otherwise application/octet-stream; stored encoding accepted (token match) => passed through with the stored bytes; else brotli + --decompress => decompressed body, no encoding (undecodable => any 4xx/5xx); else 406. Transport compression added by the server's compression layer is undone before comparing. Served content: both CSP policies together admit <origin>/content/, /r/, /blockheight, /blockhash[/], /blocktime, data:, blob: and refuse every foreign URL of the battery. Negative sat index => Cache-Control without `immutable`. Every response of every route (22 further routes incl. 400/404/405/500, POST, OPTIONS) has a Content-Security-Policy header.",
+    floors={"evaluations": 50000, "states": 40, "responses_with_csp": 50000, "content_served_ok": 15000, "content_passed_through_encoded_ok": 3000, "content_decompressed_ok": 500, "content_through_delegate_ok": 500, "refused_406": 3000, "missing_answered_404": 1000, "withheld_checked": 1500, "withheld_through_delegate_checked": 200, "negative_index_content_requests": 1000, "preview_served_content_checked": 50, "other_routes_checked": 800},
+    shards_quick=16, budget_quick=40, shards_thorough=16, budget_thorough=480, release_pass=False, miri=False,
+    assumptions=EXPLORER_ASSUME + ["CSP evaluation: default-src only (the content policies define nothing else), host-source / scheme-source / 'self' matching per CSP3 section 6.7 for http(s), data: and blob: URLs; several policies are intersected", "HTTP basic-auth configurations are not driven (the 401 of the auth layer is outside the quantifier)"],
+    crash_is_violation=True)
+
 CHECKS["C20"] = dict(
     level="exploration",
     technique="clause-by-clause monitor on TransactionBuilder::build_transaction for generated wallets: own sat-offset walk through inputs and outputs, own virtual-size formula and fee rounding, cardinal-only input check, dust and change-script checks; panics caught and named by assertion and enclosing function; checked and release builds",
